@@ -313,22 +313,22 @@ def buildDeep [DecidableEq V] (C : Codecs V P) (g : AGraph P) : Nat → Kind →
         if k == "interface" then
           -- sub-interfaces only below a DedicatedPort, and built flat
           if (f "type").any C.isDedicated then
-            let kids := (neighbors g id "connects" "ConnectionPoint").mapM fun i =>
+            let kids : Except Err (List (Sliver V)) := (neighbors g id "connects" "ConnectionPoint").mapM fun i =>
               match findNode g i with
-              | .error e => .error e
+              | .error e => Except.error e
               | .ok m => (fromProps C (tableOf "interface") m.props).map fun fi => Sliver.mk "interface" (some i) fi []
             match kids with
             | .error e => .error e
             | .ok cs => .ok (.mk k (some id) f (dedupe cs))
           else .ok (.mk k (some id) f [])
         else
-          let kids := (slotsOf k).foldl (fun acc sc =>
+          let kids : Except Err (List (Sliver V)) := (slotsOf k).foldl (fun (acc : Except Err (List (Sliver V))) sc =>
             match acc with
-            | .error e => .error e
+            | .error e => Except.error e
             | .ok cs =>
               match (neighbors g id (relOf sc.2) (classOf sc.2)).mapM (fun i => buildDeep C g fuel sc.2 i) with
-              | .error e => .error e
-              | .ok ds => if ds.all childOk then .ok (cs ++ ds) else .error "assertion") (.ok [])
+              | .error e => Except.error e
+              | .ok ds => if ds.all childOk then Except.ok (cs ++ ds) else Except.error "assertion") (Except.ok [])
           match kids with
           | .error e => .error e
           | .ok cs => .ok (.mk k (some id) f (dedupe cs))
